@@ -184,7 +184,7 @@ theorem C18_ok (cap k : Nat) (ok : Bool) (name : String) : (manyChecks name k ok
     cases ok <;> simp [recOf, List.mem_replicate]
 
 /-- The run with an overflowing test: exactly `cap` results and one exception are reported for it. -/
-example : (run ⟨4, .fork⟩ (.node "top" false false [] [manyChecks "big" 9 true, manyChecks "next" 2 false])).tot = ⟨4, 2, 0, 1⟩ := by decide
+example : (run ⟨4, .fork, .text⟩ (.node "top" false false [] [manyChecks "big" 9 true, manyChecks "next" 2 false])).tot = ⟨4, 2, 0, 1⟩ := by decide
 example : (manyChecks "t" 4095 true).truth 4096 false false = ⟨4095, 0, 0, 0⟩ := by rw [C18_counts]; simp
 example : (manyChecks "t" 4096 true).truth 4096 false false = ⟨4096, 0, 0, 1⟩ := by rw [C18_counts]; simp
 
